@@ -33,12 +33,17 @@ def cb_update(item, *sketches, table=None, plan=None, die=None, record_dir=None,
         state["taken"] = state.get("taken", 0) + 1
     if die is not None and (die[0] == -1 or wid == die[0]) and state is not None \
             and state["taken"] == die[1]:
+        code = die[3] if len(die) > 3 else 3
         if die[2] == "sim":
-            raise SimExit(3)
-        os._exit(3)
+            raise SimExit(code)
+        if code < 0:
+            os.kill(os.getpid(), -code)
+        os._exit(code)
     mode = (plan or {}).get(j, "ok")
     if mode == "before":
         raise RuntimeError(f"callback refuses item {j}")
+    if mode == "bare":
+        raise KeyError()  # an exception without any message, before touching the sketches
     for sk in sketches:
         sk.update(item["keys"])
     if mode == "after":
